@@ -777,6 +777,16 @@ pub fn compiled_batch(seed: u64, n_hist: usize, n_fam: usize) -> Batch {
                         record: Record { fields: vec![f("field0", Ty::U8), tr("field1", Ty::U8, 9), f("field2", Ty::U8), tr("field3", Ty::U8, 1), f("field4", Ty::U8)], steps: vec![] },
                     },
                     Variant { name: "Named".into(), shape: Shape::Struct, transient: false, record: Record { fields: vec![tr("t", Ty::U16, 4), f("a", Ty::U16), tr("u", Ty::U16, 5), f("b", Ty::U16)], steps: vec![] } },
+                    // steps that name positional fields BEHIND a transient one (names are declared positions)
+                    Variant {
+                        name: "Evo".into(),
+                        shape: Shape::Tuple,
+                        transient: false,
+                        record: Record {
+                            fields: vec![f("field0", Ty::I32), tr("field1", Ty::U8, 0), Field { name: "field2".into(), ty: Ty::Option(a(Ty::Str)), transient: None, opt_spelling: 0 }, f("field3", Ty::I64)],
+                            steps: vec![Step::MadeOptional { name: "field2".into() }, Step::Added { name: "field3".into(), default: Val::Int(7) }],
+                        },
+                    },
                 ],
             },
         }));
